@@ -2,12 +2,12 @@
 
 Walks the AST of every anchored file and lists
   * every call of a densifying method/function: .todense() .maybe_densify() .asnumpy()/asnumpy()
-    .toarray() .__array__() np.asarray/np.array/np.asanyarray (listed only when the argument is not an
-    obvious list/tuple/scalar literal and mentions one of the sparse operand names -- see SPARSE_ARG);
+    .toarray() .__array__();
   * every call of a NumPy allocator (np.zeros ones full empty arange indices eye identity tile repeat
-    *_like, meshgrid, mgrid/ogrid subscripts) whose argument text mentions `shape`, `size`, `prod`,
-    `nnz`-free products (`*` of names), `reduce(operator.mul`, i.e. anything that could be a product of
-    extents;
+    *_like meshgrid tri linspace bincount outer kron, mgrid/ogrid subscripts) -- ALL of them, not only
+    those whose argument text mentions `shape`/`size`/a product (a product of extents may hide behind
+    a local name such as `n_col`, `rows * cols`, `group_size`); only calls whose size argument is a
+    literal constant (`0`, `(0,)`, `()`, `(2, 0)`) are left out;
 with the enclosing function (Class.method, nested functions as outer.inner), the callee, the unparsed
 argument text and the ordinal of this (callee, args) pair inside the function (so that a second copy of
 an already reviewed call is a NEW site).  The Coq side (Model/SparseOps.v) holds the reviewed list; Props/C16.v
@@ -19,7 +19,6 @@ generate(repo) -> ({"S_dense_sites.v": coq_text}, report)"""
 import ast
 import hashlib
 import os
-import re
 import sys
 
 FILES = [
@@ -36,9 +35,20 @@ FILES = [
 DENSIFY_ATTRS = {"todense", "maybe_densify", "asnumpy", "toarray", "__array__"}
 DENSIFY_NAMES = {"asnumpy", "_todense"}
 ALLOC = {"zeros", "ones", "full", "empty", "arange", "indices", "eye", "identity", "tile", "repeat",
-         "zeros_like", "ones_like", "full_like", "empty_like", "meshgrid", "tri", "linspace"}
+         "zeros_like", "ones_like", "full_like", "empty_like", "meshgrid", "tri", "linspace", "bincount",
+         "outer", "kron"}
 NP_NAMES = {"np", "numpy"}
-SIZE_RE = re.compile(r"shape|size|prod|operator\.mul|\bmul\b|\bN\b|\bM\b")
+
+
+def _literal_size(node):
+    """the call's size argument is a literal constant"""
+    if not node.args:
+        return False
+    try:
+        ast.literal_eval(node.args[0])
+        return True
+    except (ValueError, SyntaxError, TypeError):
+        return False
 
 
 class SiteError(Exception):
@@ -85,7 +95,7 @@ class _Walk(ast.NodeVisitor):
                              [f"{k.arg}={ast.unparse(k.value)}" if k.arg else "**" + ast.unparse(k.value)
                               for k in node.keywords])
             recv = ast.unparse(node.func.value) if kind == "attr" else ""
-            keep = kind in ("attr", "name") or bool(SIZE_RE.search(args))
+            keep = kind in ("attr", "name") or not _literal_size(node)
             if keep:
                 func = ".".join(self.stack) if self.stack else "<module>"
                 text = (recv + " | " + args) if kind == "attr" else args
@@ -132,11 +142,11 @@ def extract(repo):
 def generate(repo):
     sites, hashes = extract(repo)
     out = ["(* GENERATED by tools/sitegen/dense_sites.py from the working tree of the repository: every call of a",
-           "   densifying method or of a NumPy allocator whose argument mentions shape/size/a product, in the files",
+           "   densifying method or of a NumPy allocator with a non-literal size, in the files",
            "   property C16 anchors in.  (file, enclosing function, callee, receiver | arguments, ordinal) *)",
            "From Coq Require Import String List.",
            "Import ListNotations.",
-           "Open Scope string_scope.",
+           "Local Open Scope string_scope.",
            "",
            "Record dsite := mkSite { ds_file : string; ds_func : string; ds_callee : string; ds_args : string; ds_occ : nat }.",
            "",
